@@ -27,7 +27,7 @@ REFUTED = ["stats_equal_refuted"]
 RULE = ("row histories over pk int, a int NULL, b int NULL built per key from the change patterns (one-sided, convergent, cell-wise mergeable, "
         "same-cell conflict, delete/modify, add/add) incl. NULL cells; non-trivial = the right branch changes at least one row")
 ASSUMPTIONS = ["cells are ints below 998 (row encoding of the model)"]
-REQUIRED_TAGS = ["conflict", "cellwise-merged", "right-add", "right-delete", "right-modify", "no-right-change", "delete-modify", "add-add", "null-cell"]
+REQUIRED_TAGS = ["both-paths", "short-circuit", "conflict", "cellwise-merged", "right-add", "right-delete", "right-modify", "no-right-change", "delete-modify", "add-add", "null-cell"]
 HARNESS_TIMEOUT = 2400
 
 KNOWN_KEY = "merge_prolly_rows:fast-path-stats-not-counted"
@@ -133,6 +133,10 @@ def classify(case, out):
     if o is None or out.get("err") or o.get("merge_err"):
         return ["error"]
     t = []
+    if case["left"] == case["base"] or case["right"] == case["base"] or case["left"] == case["right"]:
+        t.append("short-circuit")      # MaybeShortCircuit: neither path runs
+    else:
+        t.append("both-paths")
     slow = o["tables"]["t_chk"]
     st = slow.get("stats") or {}
     if slow["conflicts"]:
@@ -171,7 +175,7 @@ def classify(case, out):
 
 
 def nontrivial(case, out):
-    return case["right"] != case["base"]
+    return case["right"] != case["base"] and case["left"] != case["base"] and case["left"] != case["right"]
 
 
 def match_known(finding, case, out):
